@@ -561,3 +561,146 @@ Proof.
   - right. split; auto. rewrite E. apply Z.mod_same. lia.
   - left. split; [apply Z.mod_small|]; lia.
 Qed.
+
+Ltac split_or H := repeat match type of H with
+  | _ \/ _ => destruct H as [H|H]
+  | False => destruct H
+  end.
+
+(* ------------------------------------------------------------------ cyclic pairs of a list given by positions *)
+Lemma nth_zrange k t : (t < Z.to_nat k)%nat -> nth t (zrange k) 0 = Z.of_nat t.
+Proof.
+  intros H. unfold zrange.
+  change (nth t (map Z.of_nat (seq 0 (Z.to_nat k))) (Z.of_nat O) = Z.of_nat t).
+  rewrite (map_nth Z.of_nat (seq 0 (Z.to_nat k)) O t), seq_nth by lia. reflexivity.
+Qed.
+
+Lemma combine_map_same {A B C} (f : A -> B) (g : A -> C) l :
+  combine (map f l) (map g l) = map (fun x => (f x, g x)) l.
+Proof. induction l; simpl; congruence. Qed.
+
+Lemma zrange_cons k : 0 < k -> zrange k = 0 :: map (fun t => t + 1) (zrange (k - 1)).
+Proof.
+  intros Hk. unfold zrange. replace (Z.to_nat k) with (S (Z.to_nat (k - 1))) by lia.
+  cbn [seq map]. f_equal. rewrite <- seq_shift, !map_map. apply map_ext. intros a. lia.
+Qed.
+
+Lemma zrange_shift k : 0 < k -> tl (zrange k) ++ [0] = map (fun t => (t + 1) mod k) (zrange k).
+Proof.
+  intros Hk. rewrite (zrange_cons k Hk) at 1. cbn [tl].
+  assert (Hl : zrange k = zrange (k - 1) ++ [k - 1]).
+  { replace k with ((k - 1) + 1) at 1 by lia. apply zrange_succ. lia. }
+  rewrite Hl. rewrite map_app. cbn [map].
+  f_equal.
+  - apply map_ext_in. intros t Ht. apply In_zrange in Ht. rewrite Z.mod_small; lia.
+  - f_equal. replace (k - 1 + 1) with k by lia. symmetry. apply Z.mod_same. lia.
+Qed.
+
+Lemma In_cyc_pairs_positions (pos : Z -> Z) k e : 0 < k ->
+  In e (cyc_pairs (map pos (zrange k))) <-> exists t, 0 <= t < k /\ e = (pos t, pos ((t + 1) mod k)).
+Proof.
+  intros Hk. unfold cyc_pairs, fedges.
+  destruct (zrange k) as [|z0 zs] eqn:E.
+  { apply (f_equal (@length Z)) in E. rewrite zrange_length in E. simpl in E. lia. }
+  assert (Hz : z0 = 0).
+  { pose proof (nth_zrange k 0 ltac:(lia)) as H. rewrite E in H. simpl in H. exact H. }
+  subst z0. cbn [map].
+  assert (Hs : map pos zs ++ [pos 0] = map (fun t => pos ((t + 1) mod k)) (0 :: zs)).
+  { pose proof (zrange_shift k Hk) as H. rewrite E in H. cbn [tl] in H.
+    rewrite <- (map_map (fun t => (t + 1) mod k) pos), <- H, map_app. reflexivity. }
+  rewrite Hs. change (pos 0 :: map pos zs) with (map pos (0 :: zs)).
+  rewrite combine_map_same, in_map_iff. rewrite <- E. split.
+  - intros [t [<- Ht]]. apply In_zrange in Ht. exists t. auto.
+  - intros [t [Ht ->]]. exists t. split; auto. apply In_zrange. lia.
+Qed.
+
+Lemma NoDup_map_positions (pos : Z -> Z) k :
+  (forall s t, 0 <= s < k -> 0 <= t < k -> pos s = pos t -> s = t) -> NoDup (map pos (zrange k)).
+Proof.
+  intros H. apply NoDup_map_inj_in; [|apply NoDup_zrange].
+  intros x y Hx Hy. apply In_zrange in Hx, Hy. auto.
+Qed.
+
+(* a border described by positions: pos 0 -> pos 1 -> ... -> pos (k-1) -> pos 0 *)
+Lemma border_cycle_by_positions F (pos : Z -> Z) k : 0 < k ->
+  (forall s t, 0 <= s < k -> 0 <= t < k -> pos s = pos t -> s = t) ->
+  (forall t, 0 <= t < k -> is_border F (pos t, pos ((t + 1) mod k))) ->
+  (forall e, In e (dedges F) -> In (swap e) (dedges F) \/ exists t, 0 <= t < k /\ e = (pos t, pos ((t + 1) mod k))) ->
+  border_is_cycle F (map pos (zrange k)).
+Proof.
+  intros Hk Hinj Hb Hall. split; [apply NoDup_map_positions; auto|].
+  intros e. rewrite In_cyc_pairs_positions by lia. split.
+  - intros [He Hn]. destruct (Hall e He) as [H|H]; [contradiction|exact H].
+  - intros [t [Ht ->]]. auto.
+Qed.
+
+(* border edges counted through the cycle *)
+Lemma In_border F e : In e (border F) <-> is_border F e.
+Proof.
+  unfold border, is_border. rewrite filter_In. split.
+  - intros [H1 H2]. split; auto. intros H. apply dmem_In in H. rewrite H in H2. discriminate.
+  - intros [H1 H2]. split; auto. destruct (dmem (swap e) (dedges F)) eqn:E; auto.
+    apply dmem_In in E. contradiction.
+Qed.
+
+Lemma border_length F c : oriented_manifold F -> border_is_cycle F c -> (2 <= length c)%nat ->
+  zlen (border F) = zlen c.
+Proof.
+  intros HN [Hc Hb] Hl. rewrite <- (zlen_fedges c).
+  apply NoDup_same_length.
+  - apply NoDup_filter. exact HN.
+  - (* the cyclic pairs of a duplicate-free list are duplicate-free (first components) *)
+    unfold cyc_pairs in *. destruct c as [|a t]; [constructor|].
+    change (fedges (a :: t)) with (combine (a :: t) (t ++ [a])).
+    assert (G : forall (l1 : list Z) (l2 : list Z), NoDup l1 -> NoDup (combine l1 l2)).
+    { induction l1 as [|x l1 IH]; intros l2 H1; simpl; [constructor|].
+      destruct l2 as [|y l2]; [constructor|]. inversion H1; subst. constructor; auto.
+      intros Hin. apply in_combine_l in Hin. contradiction. }
+    apply G. exact Hc.
+  - intros e. rewrite In_border. apply Hb.
+Qed.
+
+(* choose the matching element of an explicit list of pairs / numbers *)
+Ltac pick_by tac := simpl; solve [repeat (first [left; solve [tac] | right])].
+
+(* contradiction / equality from a row-major index equation  i*n + j = i'*n + j'  with 0 <= j, j' < n *)
+Ltac rm_solve :=
+  match goal with
+  | H : _ * ?n + _ = _ * ?n + _ |- _ => apply rowmajor_inj in H; [|lia|lia]; lia
+  end.
+
+(* unfold list structure only (never arithmetic: `simpl` would turn  0 * n + 1 + i  into a match) *)
+Ltac lsimpl_in H := cbn [dedges flat_map fedges combine app In tl map fst snd swap length] in H.
+Ltac lsimpl := cbn [dedges flat_map fedges combine app In tl map fst snd swap length].
+
+Lemma pair_inj {A B} (a c : A) (b d : B) : (a, b) = (c, d) -> a = c /\ b = d.
+Proof. intros H. inversion H. auto. Qed.
+Ltac pinj H := let E1 := fresh "E" in let E2 := fresh "E" in apply pair_inj in H as [E1 E2].
+
+(* ------------------------------------------------------------------ several border loops *)
+Lemma map_fst_fedges c : map fst (fedges c) = c.
+Proof.
+  destruct c as [|a t]; [reflexivity|]. change (fedges (a :: t)) with (combine (a :: t) (t ++ [a])).
+  assert (G : forall (l1 l2 : list Z), length l1 = length l2 -> map fst (combine l1 l2) = l1).
+  { induction l1 as [|x l1 IH]; intros [|y l2] H; simpl in *; try discriminate; auto. f_equal. apply IH. lia. }
+  apply G. rewrite app_length. simpl. lia.
+Qed.
+
+Lemma NoDup_map_fst_inv {A B} (l : list (A * B)) : NoDup (map fst l) -> NoDup l.
+Proof.
+  induction l as [|x l IH]; simpl; intros H; [constructor|]. inversion H; subst. constructor; auto.
+  intros Hin. apply H2. apply in_map. exact Hin.
+Qed.
+
+Lemma border_length_cycles F cs : oriented_manifold F -> border_is_cycles F cs ->
+  zlen (border F) = zlen (concat cs).
+Proof.
+  intros HN [Hc Hb].
+  assert (E : map fst (flat_map fedges cs) = concat cs).
+  { clear. induction cs as [|c cs IH]; simpl; auto. rewrite map_app, map_fst_fedges, IH. reflexivity. }
+  rewrite <- E, zlen_map.
+  apply NoDup_same_length.
+  - apply NoDup_filter. exact HN.
+  - apply NoDup_map_fst_inv. rewrite E. exact Hc.
+  - intros e. rewrite In_border, Hb, in_flat_map. unfold cyc_pairs. tauto.
+Qed.
